@@ -2,6 +2,8 @@
 # usage: tools/try_mutant.sh <patch.diff> <ID> [<ID>...]   (applies to /repo, runs quick checks, reverts)
 P="$(realpath "$1")"; shift
 cd /verif
+# evidence of runs against a mutated tree must never land in /verif/evidence
+export VERIF_EVIDENCE_DIR=/tmp/mut_evidence
 git -C /repo apply "$P" || { echo "patch does not apply"; exit 3; }
 trap 'git -C /repo checkout -- . ' EXIT
 for id in "$@"; do
